@@ -100,15 +100,17 @@ def run(ck, ctx):
             ck.ob("T-CASE-LINE", f"{f.qual}: self.{attr}.{c.func.attr}(<line>.upper())", bool(c.args) and K._normalised(c.args[0]),
                   "statement-level words (upper-case patterns) must be matched against the upper-cased line", f.loc(c))
     init = m.parser_method("__init__")
-    for n in ast.walk(init.node):
-        if isinstance(n, ast.Assign) and isinstance(n.value, ast.Call) and ast.unparse(n.value.func) == "re.compile" \
-                and any(access_path(t) in ("self.skip_regex", "self.set_statement") for t in n.targets if isinstance(t, ast.Attribute)):
-            pat = n.value.args[0].value if n.value.args and isinstance(n.value.args[0], ast.Constant) else None
-            flags = [ast.unparse(a) for a in n.value.args[1:]] + [ast.unparse(k.value) for k in n.value.keywords]
-            import re as _re
-            bare = _re.sub(r"\\.", "", pat) if isinstance(pat, str) else None
-            ok = isinstance(pat, str) and (bare == bare.upper() or any("IGNORECASE" in x or "re.I" in x for x in flags))
-            ck.ob("T-CASE-LINE", f"Parser.__init__: {ast.unparse(n.targets[0])} pattern is upper-case", ok, repr(pat), init.loc(n))
+    from ..linemodel import LineMachine
+    import re as _re
+    _consts = LineMachine(ctx).consts
+    for attr in ("skip_regex", "set_statement"):
+        rx = _consts.get(attr)
+        if not (isinstance(rx, tuple) and rx[:1] == ("regex",)):
+            raise AnalysisError(f"anchor vanished: the compiled pattern self.{attr}")
+        pat = rx[1].pattern
+        bare = _re.sub(r"\\.", "", pat)
+        ok = bare == bare.upper() or bool(rx[1].flags & _re.IGNORECASE)
+        ck.ob("T-CASE-LINE", f"Parser.__init__: self.{attr} pattern is upper-case", ok, repr(pat), init.loc())
     f = m.parser_method("check_new_statement_start")
     sw = [n for n in ast.walk(f.node) if isinstance(n, ast.Call) and isinstance(n.func, ast.Attribute) and n.func.attr == "startswith"]
     for c in sw:
@@ -137,15 +139,14 @@ def run(ck, ctx):
     for wd in sorted(set(words)):
         ck.ob("T-LINE.words", f"new-statement word {wd!r}", wd.strip() in STARTERS and wd != wd.rstrip(),
               "must be one of CREATE / ALTER / DROP / SET followed by a blank (whole-word match on the line start)", f.loc())
-    import re as _re
-    for n in ast.walk(init.node):
-        if isinstance(n, ast.Assign) and isinstance(n.value, ast.Call) and ast.unparse(n.value.func) == "re.compile" \
-                and any(access_path(t) == "self.skip_regex" for t in n.targets if isinstance(t, ast.Attribute)):
-            pat = n.value.args[0].value if n.value.args and isinstance(n.value.args[0], ast.Constant) else ""
-            mt = _re.fullmatch(r"\^\(([A-Za-z|]+)\)\\b", pat)
-            alts = set(mt.group(1).split("|")) if mt else None
-            ck.ob("T-LINE.words", "skipped line starts are exactly GO / USE / INSERT / GRANT / DELETE as whole words", alts is not None and alts <= SKIPPED,
-                  f"pattern {pat!r}", init.loc(n))
+    rx = _consts["skip_regex"][1]
+    hit = sorted(w for w in SKIPPED if rx.match(w + " x") and rx.match(w))
+    glued = sorted(w for w in SKIPPED if rx.match(w + "X y") or rx.match(w + "_1 int"))
+    others = sorted(w for w in ("CREATE", "ALTER", "DROP", "SET", "SELECT", "UPDATE", "COMMENT", "GOTO", "USER", "INSERTED", "GRANTED", "DELETED", "ID",
+                                "PRIMARY", "WITH", "OPTIONS", "ON", "GO_LIVE", "USE_CASE") if rx.match(w + " x"))
+    ck.ob("T-LINE.words", "skipped line starts are exactly GO / USE / INSERT / GRANT / DELETE as whole words",
+          hit == sorted(SKIPPED) and not glued and not others,
+          f"pattern {rx.pattern!r}: matches {hit}, matches as a prefix of a longer word {glued}, matches other words {others}", init.loc())
     # ---- E7: line layout.  Per-line laws of the line machine + line formation
     from ..specs import lines as L
     lmach = L.check_layout_laws(ck, ctx)
